@@ -65,6 +65,13 @@ func c12Schema() *dp.Schema {
 		{Kind: dp.Choice, Name: "ch", Children: []*dp.SNode{
 			{Kind: dp.Case, Name: "c1", Children: []*dp.SNode{{Kind: dp.Leaf, Name: "p1", Type: str()}, {Kind: dp.Leaf, Name: "p2", Type: str()}}},
 			{Kind: dp.Case, Name: "c2", Children: []*dp.SNode{{Kind: dp.Leaf, Name: "r1", Type: str()}, {Kind: dp.Container, Name: "rc", Children: []*dp.SNode{{Kind: dp.Leaf, Name: "s", Type: str()}}}}},
+			// a choice nested in a case, neither first nor last of the case's definitions
+			{Kind: dp.Case, Name: "c3", Children: []*dp.SNode{{Kind: dp.Leaf, Name: "ta", Type: str()},
+				{Kind: dp.Choice, Name: "inner", Children: []*dp.SNode{
+					{Kind: dp.Case, Name: "i1", Children: []*dp.SNode{{Kind: dp.Leaf, Name: "u1", Type: str()}}},
+					{Kind: dp.Case, Name: "i2", Children: []*dp.SNode{{Kind: dp.Leaf, Name: "u2", Type: i32()}, {Kind: dp.Container, Name: "uc", Children: []*dp.SNode{{Kind: dp.Leaf, Name: "uu", Type: str()}}}}},
+				}},
+				{Kind: dp.Leaf, Name: "tz", Type: str()}}},
 		}},
 		{Kind: dp.Leaf, Name: "top", Type: str()},
 	}
